@@ -52,4 +52,14 @@ def count_configurations_rec(feature: Feature) -> int:
         elif relation.is_or():
             children_counts = [count_configurations_rec(f) + 1 for f in relation.children]
             counts.append(math.prod(children_counts) - 1)
+        elif relation.is_group():
+            # Mutex and group cardinality [a..b]: add up, for every allowed number k of
+            # selected children, the configurations of every k-subset of the children.
+            children_counts = [count_configurations_rec(f) for f in relation.children]
+            subsets_counts = [1] + [0] * len(children_counts)
+            for i, child_count in enumerate(children_counts):
+                for k in range(i + 1, 0, -1):
+                    subsets_counts[k] += subsets_counts[k - 1] * child_count
+            card_max = len(children_counts) if relation.card_max == -1 else relation.card_max
+            counts.append(sum(subsets_counts[relation.card_min:card_max + 1]))
     return math.prod(counts)
